@@ -327,7 +327,7 @@ func NewTLV(tlvType byte, tlvValue Attribute) (Attribute, error) {
 // NewTunnelPassword returns an RFC 2868 encrypted Tunnel-Password.
 // A tag must be added on to the returned Attribute.
 func NewTunnelPassword(password, salt, secret, requestAuthenticator []byte) (Attribute, error) {
-	if len(password) > 249 {
+	if len(password) > 239 {
 		return nil, errors.New("invalid password length")
 	}
 	if len(salt) != 2 {
